@@ -21,10 +21,10 @@ class C11(CurveCheck):
                   "(_partial) - that curve25519-dalek's / the executable model's arithmetic is such a group is NOT proved, it is "
                   "checked by computation (model = implementation = independent python reference on every case). Distinctness of "
                   "subaddress keys is proved GIVEN distinct scalars mod l (collision resistance of Hs is not assumed). The address "
-                  "TEXT belongs to C12; here the record fields (network, type, spend, view) are compared. Evaluator A (coqc) "
-                  "re-evaluates curve cases only in the thorough tier")
-    evalA_lines = ()
-    evalA_lines_thorough = ("subaddr %s %s 0 0 none" % (le(1).hex(), le(1).hex()),)
+                  "TEXT belongs to C12; here the record fields (network, type, spend, view) are compared. Evaluator A (coqc vm_compute) "
+                  "re-evaluates one subaddr case per run (two in the thorough tier), no uniform sample")
+    evalA_lines = ("subaddr %s %s 0 0 none" % (le(1).hex(), le(1).hex()),)
+    evalA_lines_thorough = ("subaddr %s %s 0 1 main" % (le(1).hex(), le(1).hex()),)
 
     def gen_cases(self, tier, rng):
         q = tier == "quick"
@@ -34,6 +34,7 @@ class C11(CurveCheck):
         ts = "8163466f1883598e6dd14027b8da727057165da91485834314f5500a65846f09"
         cs.append(Case("subaddr %s %s 2 18 main" % (tv, ts), "corpus"))
         cs.append(Case("subaddr %s %s 0 0 none" % (le(1).hex(), le(1).hex()), "corpus"))
+        cs.append(Case("subaddr %s %s 0 1 main" % (le(1).hex(), le(1).hex()), "corpus"))
         wallets = [(tv, ts)]
         for _ in range(2 if q else 12):
             wallets.append((le(rng.randrange(L)).hex(), le(rng.randrange(L)).hex()))
